@@ -113,7 +113,7 @@ def programs(
     for _ in range(n):
         choice = draw(
             st.sampled_from(
-                ["unary", "unary", "binary", "binary", "binary", "compare", "compare", "logical", "not", "select", "select", "const", "const", "named", "cast", "list", "nested-select", "signshape"]
+                ["unary", "unary", "binary", "binary", "binary", "compare", "compare", "logical", "not", "select", "select", "const", "const", "named", "cast", "list", "nested-select", "signshape"] + (["complex"] * 5 if complex_ok else [])
             )
         )
         if choice == "unary":
@@ -160,9 +160,13 @@ def programs(
             a = pick(is_real)
             if c is None or a is None or not ok("select"):
                 continue
-            b = pick(lambda s: s == sorts[a])
+            b = pick((lambda s: is_real(s)) if mixed else (lambda s: s == sorts[a]))
             if b is not None:
-                add(["select", c, a, b], sorts[a])
+                so = sorts[a]
+                if sorts[b] != so:
+                    order = ["f16", "f32", "f", "f64"]
+                    so = max(sorts[a], sorts[b], key=order.index)
+                add(["select", c, a, b], so)
         elif choice == "nested-select":
             # select(c1, select(c2, a, b), b) / select(c1, a, select(c2, a, b)): the shapes the select rules match
             c1 = pick(lambda s: s == "b")
@@ -229,6 +233,46 @@ def programs(
             L = add(["list"] + items, "L")
             k = draw(st.integers(0, len(items) - 1))
             add(["item", L, k], sorts[a])
+        elif choice == "complex" and complex_ok:
+            def is_c(s):
+                return s in ("c64", "c128")
+
+            c = pick(is_c)
+            op = draw(st.sampled_from(["real", "imag", "absolute", "negative", "conjugate", "arith", "arith", "make", "const", "named", "eqne", "select", "square"]))
+            if op == "make":
+                a = pick(lambda s: s in ("f32", "f64"))
+                if a is not None:
+                    b = pick(lambda s: s == sorts[a])
+                    add(["complex", a, b], "c64" if sorts[a] == "f32" else "c128")
+                continue
+            if c is None:
+                continue
+            half = "f32" if sorts[c] == "c64" else "f64"
+            if op in ("real", "imag", "absolute"):
+                add([op, c], half)
+            elif op in ("negative", "conjugate", "square"):
+                add([op, c], sorts[c])
+            elif op == "arith":
+                o = pick((lambda s: is_c(s) or is_real(s)) if mixed else (lambda s: s == sorts[c] or s == half))
+                if o is not None:
+                    k = draw(st.sampled_from(["add", "subtract", "multiply", "divide"]))
+                    wide = sorts[c] == "c128" or sorts[o] in ("c128", "f64", "f")
+                    args = [c, o] if draw(st.booleans()) else [o, c]
+                    add([k] + args, "c128" if wide else "c64")
+            elif op == "const":
+                add(["const", draw(st.sampled_from(CONSTS[:10])), c], sorts[c])
+            elif op == "named":
+                if allow_named:
+                    add(["named", draw(st.sampled_from(list(named))), c], sorts[c])
+            elif op == "eqne":
+                o = pick(lambda s: s == sorts[c])
+                if o is not None:
+                    add([draw(st.sampled_from(["eq", "ne"])), c, o], "b")
+            elif op == "select":
+                b_ = pick(lambda s: s == "b")
+                o = pick(lambda s: s == sorts[c])
+                if b_ is not None and o is not None:
+                    add(["select", b_, c, o], sorts[c])
         elif choice == "signshape":
             # deliberately sign-inferable shapes compared with each other / with 0 and 1
             a = pick(is_real)
@@ -272,7 +316,7 @@ def programs(
             else:
                 add([k, other, shapes[0]], "b")
     # root: prefer a late node of a value sort
-    want = root_sorts or ("f16", "f32", "f64", "f", "b")
+    want = root_sorts or (("f16", "f32", "f64", "f", "b") + (("c64", "c128") if complex_ok else ()))
     cand = [i for i, s in enumerate(sorts) if s in want and i >= len(syms)]
     if not cand:
         cand = [i for i, s in enumerate(sorts) if s in want]
